@@ -26,6 +26,8 @@ pub(crate) static mut PARK_BUDGET: usize = 2;
 pub(crate) static mut PARKS: usize = 0;
 /// result of the most recent abstract park: 0 Ok, 1 Timeout, 2 Canceled
 pub(crate) static mut PARK_LAST: u8 = 0;
+/// the waiter has read `unparked == true`: from now on it owns what was handed over and must not wait again
+pub(crate) static mut OBSERVED_UNPARKED: bool = false;
 
 pub(crate) fn env_reset(waker_exists: bool, may_cancel: bool, may_timeout: bool, budget: usize) {
     unsafe {
@@ -38,6 +40,7 @@ pub(crate) fn env_reset(waker_exists: bool, may_cancel: bool, may_timeout: bool,
         PARK_BUDGET = budget;
         PARKS = 0;
         PARK_LAST = 0;
+        OBSERVED_UNPARKED = false;
     }
 }
 
@@ -112,7 +115,11 @@ pub(crate) fn current_env() -> Arc<SyncBlocker> {
 
 pub(crate) fn is_unparked_env(b: &SyncBlocker) -> bool {
     env_step();
-    b.unparked.load(Ordering::Acquire)
+    let r = b.unparked.load(Ordering::Acquire);
+    if r {
+        unsafe { OBSERVED_UNPARKED = true };
+    }
+    r
 }
 
 pub(crate) fn set_release_env(b: &SyncBlocker) {
@@ -128,6 +135,7 @@ pub(crate) fn take_release_env(b: &SyncBlocker) -> bool {
 /// Abstract `SyncBlocker::park` (contract of a fresh blocker, C02): Ok only if the park token was
 /// delivered; Timeout only with a time-out (and if the harness allows it); Canceled only if allowed.
 pub(crate) fn park_env(b: &SyncBlocker, timeout: Option<Duration>) -> Result<(), ParkError> {
+    assert!(!unsafe { OBSERVED_UNPARKED }, "[C09.4-no-wait-after-handoff-seen] the waiter parks again after it has seen that the wake-up was delivered to it: the token is used up, nobody will wake it and it sits on what it was given");
     env_step();
     unsafe {
         if PARK_BUDGET == 0 {
